@@ -105,7 +105,8 @@ def machine : Machine SState (Nat × Nat) (List Nat) where
   next := next
   finish := finish
 
-def SState.create (ne nl : Nat) : SState :=
-  { sig := fun _ _ => Sig.empty, eAlive := fun e => decide (e < ne), lAlive := fun l => decide (l < nl), clock := 0 }
+/-- nothing connected, no emission in progress, every object exists -/
+def SState.fresh : SState :=
+  { sig := fun _ _ => Sig.empty, eAlive := fun _ => true, lAlive := fun _ => true, clock := 0 }
 
 end Nstd.Callback.Spec
